@@ -808,6 +808,7 @@ func TestVerif_C03_gzipcut(t *testing.T) {
 	r := s.Rand()
 	nMsgs := verifh.N(12, 60)
 	reached := map[string]int{}
+	knownSeen := map[string]int{}
 	failures := 0
 	for i := 0; i < nMsgs && failures < 12; i++ {
 		plain := verifh.RandBytes(r, 1+r.Intn(400), "abcdefgh \n")
@@ -879,6 +880,13 @@ func TestVerif_C03_gzipcut(t *testing.T) {
 			human := fmt.Sprintf("gzip framing=%s len=%d (head %d) cut k=%d -> %s", framing, len(st), he, k, c04Short(first))
 			if why != "" {
 				human += " ORACLE: " + why
+			}
+			if !ok && class != "" {
+				knownSeen[class]++
+				if knownSeen[class] > 3 {
+					s.Count("known-not-reported-again:" + class)
+					ok = true
+				}
 			}
 			s.Observe(fmt.Sprintf("gzipcut/%d/%d/%x", i, k, st), ok, class, k > he && k < len(st), human, why)
 		}
